@@ -362,28 +362,32 @@ func (f *FieldVal) Normalize() *FieldVal {
 	// can simply multiply the magnitude by the field representation of the
 	// prime and do a single iteration.  After this step there might be an
 	// additional carry to bit 256 (bit 22 of the high order word).
-	t9 := f.n[9]
-	m := t9 >> fieldMSBBits
-	t9 = t9 & fieldMSBMask
-	t0 := f.n[0] + m*977
-	t1 := (t0 >> fieldBase) + f.n[1] + (m << 6)
-	t0 = t0 & fieldBaseMask
-	t2 := (t1 >> fieldBase) + f.n[2]
-	t1 = t1 & fieldBaseMask
-	t3 := (t2 >> fieldBase) + f.n[3]
-	t2 = t2 & fieldBaseMask
-	t4 := (t3 >> fieldBase) + f.n[4]
-	t3 = t3 & fieldBaseMask
-	t5 := (t4 >> fieldBase) + f.n[5]
-	t4 = t4 & fieldBaseMask
-	t6 := (t5 >> fieldBase) + f.n[6]
-	t5 = t5 & fieldBaseMask
-	t7 := (t6 >> fieldBase) + f.n[7]
-	t6 = t6 & fieldBaseMask
-	t8 := (t7 >> fieldBase) + f.n[8]
-	t7 = t7 & fieldBaseMask
-	t9 = (t8 >> fieldBase) + t9
-	t8 = t8 & fieldBaseMask
+	//
+	// This first pass is carried in 64 bits because, at the documented
+	// maximum magnitude of 64, the sums n[0] + m*977 and n[1] + carry +
+	// (m << 6) do not fit in 32 bits.
+	w9 := uint64(f.n[9])
+	m64 := w9 >> fieldMSBBits
+	w9 = w9 & fieldMSBMask
+	w0 := uint64(f.n[0]) + m64*977
+	w1 := (w0 >> fieldBase) + uint64(f.n[1]) + (m64 << 6)
+	t0 := uint32(w0 & fieldBaseMask)
+	w2 := (w1 >> fieldBase) + uint64(f.n[2])
+	t1 := uint32(w1 & fieldBaseMask)
+	w3 := (w2 >> fieldBase) + uint64(f.n[3])
+	t2 := uint32(w2 & fieldBaseMask)
+	w4 := (w3 >> fieldBase) + uint64(f.n[4])
+	t3 := uint32(w3 & fieldBaseMask)
+	w5 := (w4 >> fieldBase) + uint64(f.n[5])
+	t4 := uint32(w4 & fieldBaseMask)
+	w6 := (w5 >> fieldBase) + uint64(f.n[6])
+	t5 := uint32(w5 & fieldBaseMask)
+	w7 := (w6 >> fieldBase) + uint64(f.n[7])
+	t6 := uint32(w6 & fieldBaseMask)
+	w8 := (w7 >> fieldBase) + uint64(f.n[8])
+	t7 := uint32(w7 & fieldBaseMask)
+	t9 := uint32((w8 >> fieldBase) + w9)
+	t8 := uint32(w8 & fieldBaseMask)
 
 	// At this point, the magnitude is guaranteed to be one, however, the
 	// value could still be greater than the prime if there was either a
@@ -394,7 +398,7 @@ func (f *FieldVal) Normalize() *FieldVal {
 	//
 	// Also note that 'm' will be zero when neither of the aforementioned
 	// conditions are true and the value will not be changed when 'm' is zero.
-	m = constantTimeEq(t9, fieldMSBMask)
+	m := constantTimeEq(t9, fieldMSBMask)
 	m &= constantTimeEq(t8&t7&t6&t5&t4&t3&t2, fieldBaseMask)
 	m &= constantTimeGreater(t1+64+((t0+977)>>fieldBase), fieldBaseMask)
 	m |= t9 >> fieldMSBBits
